@@ -48,7 +48,9 @@ func genC18(t *rapid.T) c18Case {
 	c := c18Case{Via: map[string]string{}}
 	c.Auth = rapid.SampledFrom(c18AuthSets).Draw(t, "auth")
 	c.TLS = rapid.SampledFrom([]string{"disable", "certificate"}).Draw(t, "tls")
-	c.HostSel = rapid.SampledFrom([]string{"roundrobin", "signed", "signed", "unsigned", "any"}).Draw(t, "hostsel")
+	// other spellings are no mode the documentation names: whatever the gateway makes of them, it must not end up
+	// running signed host selection without a key (probed below on instances that start)
+	c.HostSel = rapid.SampledFrom([]string{"roundrobin", "signed", "signed", "signed", "unsigned", "any", "Signed", "SIGNED", "signed ", "RoundRobin"}).Draw(t, "hostsel")
 	c.QueryKey = rapid.Bool().Draw(t, "querykey")
 	c.NHosts = rapid.SampledFrom([]int{0, 1, 1, 2, 3}).Draw(t, "nhosts")
 	c.Keytab = rapid.Bool().Draw(t, "keytab")
@@ -206,8 +208,28 @@ func runC18(c c18Case) *Violation {
 		}
 		return nil
 	}
+	if !contains([]string{"roundrobin", "signed", "unsigned", "any"}, c.HostSel) {
+		// undocumented spelling: starting or refusing are both acceptable; a started instance is probed
+		if exited || !in.Listening() {
+			return nil
+		}
+	}
 	if exited || !in.Listening() {
 		return viol("c18/good-config-refused", "a consistent configuration did not start (exit %v code %d): %s\n stderr: %s", exited, code, desc, tail(in.Stderr(), 700))
+	}
+	if has(c.Auth, "openid") && !c.QueryKey {
+		// behaviour of the running instance: with signed host selection a download needs a host token, and
+		// neither a missing host parameter nor a plain configured host name is served
+		b := newBrowser()
+		if r, _, err := b.login(in, idp.CodeSpec{Sub: "u-c18", Username: "c18user"}); err != nil || r.Code != http.StatusFound {
+			return nil // login did not complete (covered by C12/C13); nothing to probe
+		}
+		r1, err1 := b.get(in, "/connect")
+		r2, err2 := b.get(in, "/connect?host="+url.QueryEscape("10.9.8.1:3389"))
+		if err1 == nil && err2 == nil && r1.Code == 400 && r2.Code == 400 && strings.Contains(strings.ToLower(r2.Body), "token") {
+			return viol("c18/signed-selection-running-without-key", "the gateway runs signed host selection (download without host: %d, with a plain configured host: %d %q) although no query-token key is configured: %s",
+				r1.Code, r2.Code, strings.TrimSpace(r2.Body), desc)
+		}
 	}
 	return nil
 }
@@ -236,6 +258,7 @@ func TestC18_START(t *testing.T) {
 // ---- key substitution: function level (config.Load) ----
 
 type c18Keys struct {
+	HostSel   string         `json:"host_selection,omitempty"` // spelling of the mode; never exactly "signed" here (no query key is given, Load would exit)
 	Len       map[string]int `json:"key_lengths"` // -1 = absent
 	UserToken bool           `json:"enable_user_token"`
 	ViaEnv    bool           `json:"via_env"`
@@ -249,6 +272,10 @@ func TestC18_LOAD(t *testing.T) {
 		c := c18Keys{Len: map[string]int{}, UserToken: rapid.Bool().Draw(t, "usertoken"), ViaEnv: rapid.IntRange(0, 3).Draw(t, "env") == 0}
 		for _, k := range c18KeyNames {
 			c.Len[k] = rapid.SampledFrom([]int{-1, 0, 1, 31, 32, 32, 32}).Draw(t, k)
+		}
+		c.HostSel = rapid.SampledFrom([]string{"", "", "roundrobin", "unsigned", "any", "Signed", "SIGNED", " signed", "signed ", "sIgNeD"}).Draw(t, "hostsel")
+		if c.ViaEnv && strings.TrimSpace(c.HostSel) == "signed" {
+			c.HostSel = "Signed" // values from the environment are trimmed: that is exactly "signed", which Load refuses by exiting
 		}
 		return c
 	}, func(c c18Keys) (bool, []string) { return true, nil }, func(c c18Keys) *Violation {
@@ -281,6 +308,14 @@ func TestC18_LOAD(t *testing.T) {
 				os.Unsetenv(e)
 			}
 		}()
+		if c.HostSel != "" {
+			if c.ViaEnv {
+				envs = append(envs, "RDPGW_SERVER__HOST_SELECTION")
+				os.Setenv("RDPGW_SERVER__HOST_SELECTION", c.HostSel)
+			} else {
+				srv["HostSelection"] = c.HostSel
+			}
+		}
 		b, _ := json.Marshal(map[string]any{"Server": srv, "Security": sec})
 		fn := filepath.Join(dir, "keys.yaml")
 		os.WriteFile(fn, b, 0o600)
@@ -301,6 +336,10 @@ func TestC18_LOAD(t *testing.T) {
 				return cf.Server.SessionKey
 			}
 			return cf.Server.SessionEncryptionKey
+		}
+		// Load returned instead of exiting: main() goes on to start with this configuration
+		if a.Server.HostSelection == "signed" && a.Security.QueryTokenSigningKey == "" {
+			return viol("c18/load-returns-signed-without-key", "config.Load accepted host selection %q without a query-token key and returned mode \"signed\": the gateway would start", c.HostSel)
 		}
 		for _, k := range c18KeyNames {
 			if k == "UserTokenEncryptionKey" && !c.UserToken {
